@@ -166,6 +166,7 @@ def prun(d, props=None, workers='4'):
                 if 'UNDECIDED' in l:
                     print('   ', l[:240])
     finally:
+        sh(f'cp {vf}/build/logs/kani_raw_* {VERIF}/build/logs/ 2>/dev/null', '/')
         # results keyed by the generated text itself are valid for any tree: share them back
         sh(f'cp -n {vf}/build/cache/by_content/* {VERIF}/build/cache/by_content/ 2>/dev/null', '/')
         sh(f'git worktree remove --force {wt}', '/repo')
